@@ -140,6 +140,8 @@ def check_inverse_rules(idx, rep, res, fname, pseudo=False):
             # pinv rules: the Moore-Penrose inverse of the operand's defining term (it is the inverse on the invertible payload kinds)
             want = ("pinv", sym(a)) if pseudo else INV(sym(a))
             ok = equal(t, want, frozenset(hyp), d2)
+            if ok is False and kd is None and len(kinds) == 1 and kinds[0] not in ("LinearOperator", ) and idx.has_cls(kinds[0]) and sym(a) not in d2 and f"'{a}." in repr(nt):
+                ok = None  # built from payload attributes of a kind whose definition is outside the term grammar
             hy = ", ".join(sorted(f"{h[0]}({show(h[1])})" for h in hyp))
             rep.decide(ok, "inverse-rule", construct, f"returns {show(norm(expand(t, d2), frozenset(hyp)))}; required {'pinv' if pseudo else 'inv'}({show(norm(expand(sym(a), d2)))}) = {show(norm(expand(want, d2), frozenset(hyp)))}"
                        + (f" under {hy}" if hy else "") + (f" [outside the grammar: {opaque_text(norm(t))}]" if ok is None else ""),
